@@ -36,6 +36,7 @@ def func(tag, cmd, quick, thorough, mismatch, checker, **kw):
 
 SETTLE_ASSUME = ["x/bank: a send fails iff the sender's balance is insufficient and has no other effect; treasury accounts have no key",
                  "baseapp: messages of a transaction run on a branch that is written only if all succeed",
+                 "a token contract the module did not deploy (a tenant may name any address): what a call to it does is an input of the history - class 3 'every call fails' for the addresses the EVM reserves (precompiles and default-active extensions), class 4 'succeeds and moves nothing the module sees' for addresses without code; the harness takes the class from the address alone",
                  "ERC-721 ownerOf / SBT mint modelled as abstract ledgers; ERC-20 conversion payouts (erc20 profile: a registered token pair, treasuries funded by token mints) modelled as a ledger whose treasury side is the token balance and whose recipient side is the coin balance; coin deposits into a token-pair treasury and conversion failures other than a short token balance are not exercised"]
 
 PROPS = {
@@ -113,7 +114,8 @@ PROPS = {
         fields=[20, 21],
         inventory=[('panic_sites', 'panic_table')],
         rule=CHAIN_RULE + "; adversarial stream: negative / zero / 2^63 / 2^64 / 2^256-1 amounts, malformed and unregistered denominations, malformed token ids and contract addresses, vote entries without ':' or '/', deprecated and unknown topics, periods near 2^64; every history runs on through maturity, tally and slash window",
-        assumptions=["panic sites are those of the generated inventory of x/settlement, x/oracle, app/ante, app/post, types (go/parser; every site must be accounted for in Inventory/Table.v); a panic deep inside a dependency is caught only dynamically",
+        assumptions=["a call into the EVM is assumed to return (with or without an error) once the settlement module has wrapped it (callContract recovers a panic of the call, F25): what the EVM does at an address is not modelled, its class (fails / succeeds without visible effect) is an input of the history",
+                     "panic sites are those of the generated inventory of x/settlement, x/oracle, app/ante, app/post, types (go/parser; every site must be accounted for in Inventory/Table.v); a panic deep inside a dependency is caught only dynamically",
                      "genesis-imported records are configuration: the theorem assumes the imported records satisfy rec_safe (the empty genesis does)"]),
     'C07': dict(
         theorems=['C07_miss_order_free', 'C07_reward_order_free', 'C07_tally_order_free', 'C07_missers_order_free', 'C07_step_is_a_function'],
@@ -165,7 +167,8 @@ PROPS = {
               chain('settle', 'settlement', 24, 800, 'no_check')],
         fields=[12, 20],
         rule=ANTE_RULE + "; pure settlement transactions additionally vary the governance parameters (1-3 gas prices incl. 10^-18 and non-terminating decimals, oracle share 0 .. 1), the offered fee (requirement -1 / 0 / +1 / +surplus per denomination, several denominations), the gas limit, and whether the messages succeed; the three transfers of the ante handler are read from the bank events of the transaction",
-        assumptions=ANTE_ASSUME + ["the evmos post handler burns min(offered fee, fee-collector balance) after every Cosmos transaction: the collector's share of a settlement fee is credited and then burnt; the split is therefore observed on the transfers (bank events), not on the collector's end balance",
+        assumptions=ANTE_ASSUME + ["x/feegrant: a BasicAllowance admits a fee iff it has no spend limit or the limit covers the fee coin-wise (trusted, modelled as such); the fee decorator asks it for the fee that is charged, oracle transactions never ask",
+                                   "the evmos post handler burns min(offered fee, fee-collector balance) after every Cosmos transaction: the collector's share of a settlement fee is credited and then burnt; the split is therefore observed on the transfers (bank events), not on the collector's end balance",
                                    "block gas limit -1 (as the suite runs); with a finite limit baseapp skips transactions once the block gas meter is exhausted"]),
     'C17': dict(
         theorems=['C17_settlement_roundtrip', 'C17_oracle_roundtrip', 'C17_roundtrip_after_any_history', 'C17_genesis_hypotheses'],
